@@ -1,4 +1,5 @@
 """C05 — fix never silently leaves or produces wrong data (validation, write-back discipline, hash provenance)."""
+import re
 from ..frontend import AnalysisBroken
 from ..ir import base
 from ..guards import guards_of, state_is
@@ -305,6 +306,7 @@ def run(ctx, rep):
     chg_decision_rules(P, rep, rid_safe='R-C05-6r')
     blockcmp_size_rule(P, rep, 'R-C05-14')
     failed_index_vectors_rule(P, rep, 'R-C05-15')
+    whole_file_processed_rule(P, rep, 'R-C05-3s')
     sy = P.fn('state_sync_process')
     hc2 = [c for c in C04.hash_compares(sy) if 'failed[' not in ' '.join(sy.expr(o) for o in c.ops)]
     okc = False
@@ -771,6 +773,56 @@ def old_state_strategy_rule(P, rep, rid):
                         why = 'a changed block with unknown old content has to be reconstructed (or fetched)'
                     rep.check(ok, rid, 'hashsize %d: %s block, %s, past hash %s' % (hsize, state_name, 'bad' if is_bad else 'readable', kind), f.file,
                               'counted among the blocks to reconstruct: %d' % n_ if ok else 'counted among the blocks to reconstruct: %d -- %s' % (n_, why) + (' (hash_is_zero() answers 0 for every reduced hash: with hashsize < 16 the marker is not recognised)' if hsize != 16 else ''), function='repair', construct='old-state classification' if hsize == 16 else 'old-state classification blind for reduced hash')
+
+
+def whole_file_processed_rule(P, rep, rid):
+    """file_post() gives the verdict of a file (recovered: report + recorded time-stamp restored; unrecoverable: renamed) when the LAST
+    block of the file is processed.  The verdict is about the whole file only if its FIRST block was inside the processed range too:
+    `fix -S n` starting inside a lost file rebuilds the blocks from n on, leaves zeros before them, and -- without a test of the
+    range start -- reports the file recovered and gives it the recorded time-stamp, so that diff and sync see it as unchanged.  Rule:
+    the range start of state_check_process reaches file_post, and the time-stamp restoration there is guarded by a test that
+    involves it."""
+    from ..guards import guards_of
+    rep.rule(rid, 'file_post: the verdict of a file (time-stamp restored, `recovered`) is given only if the start of the processed range is not after the first block of the file', 1)
+    sc = P.fn('state_check_process')
+    fp = P.fn('file_post')
+    rep.analysed(sc, fp)
+    calls = [c for c in sc.calls('file_post')]
+    if not calls:
+        raise AnalysisBroken('state_check_process no longer calls file_post')
+    # the range start: the parameter of state_check_process that initialises the stripe counter (named blockstart in the reference)
+    # by role: the parameter stored into the counter of the loop that holds the file_post call, before that loop
+    m = []
+    lp = sc.loop_of(calls[0].block)
+    outer = [h_ for h_, b_ in sc.loops.items() if calls[0].block in b_]
+    top = max(outer, key=lambda h_: len(sc.loops[h_])) if outer else None
+    if top is not None:
+        t_ = sc.term(top)
+        ci_ = sc.inst_of(t_.ops[0]) if t_.op == 'br' and len(t_.ops) == 3 else None
+        li_ = sc.inst_of(ci_.ops[0]) if ci_ is not None and ci_.op == 'icmp' else None
+        ca_ = sc.strip(li_.ops[0]) if li_ is not None and li_.op == 'load' else None
+        if ca_ is not None and ca_[0] == 'i':
+            for u in sc.users.get(ca_[1], ()):
+                if u.op == 'store' and sc.strip(u.ops[1]) == ca_ and u.block not in sc.loops[top]:
+                    m += [x[1] for x in sc.value_sources(u.ops[0]) if x[0] == 'arg']
+    m = sorted(set(m)) or [k for k, a in enumerate(sc.args) if a.get('name') == 'blockstart']
+    if len(m) != 1:
+        raise AnalysisBroken('state_check_process: the range start parameter was not identified (%s)' % m)
+    ks = [k for k, o in enumerate(calls[0].ops[:len(fp.args)]) if sc.value_sources(o) == {('arg', m[0])}] or \
+         [k for k, o in enumerate(calls[0].ops[:len(fp.args)]) if any(x == ('arg', m[0]) for x in sc.value_sources(o))]
+    ut = list(fp.calls('handle_utime'))
+    if not ut:
+        raise AnalysisBroken('file_post: handle_utime not found')
+    ok = False
+    det = 'file_post is not given the start of the range'
+    if ks:
+        nm = fp.args[ks[0]].get('name') or ''
+        gs = guards_of(fp, ut[0], expand=True)
+        ok = bool(nm) and any(re.search(r'\b%s\b' % re.escape(nm), a) for a, p_ in gs)
+        det = 'guards of the time-stamp restoration: %s' % [a[:50] for a, p_ in gs if nm and nm in a] if ok else 'file_post receives the range start (%s) but the verdict does not depend on it' % nm
+    rep.check(ok, rid, 'file_post: verdict only for files whose first block is inside the range', ut[0].loc(),
+              det if ok else det + ': `fix -S n` with n inside a lost file leaves zeros in the blocks before n, reports the file recovered and restores the recorded time-stamp -- diff says `No differences`, sync `Nothing to do`',
+              function='file_post', construct='verdict for a partially processed file')
 
 
 def state_case_entries(f, k):
